@@ -66,11 +66,13 @@ Definition step (o : copts) (s : cstate) (p : pkt) : cstate * list resp :=
            | PUBLISH => if pqos p =? 0 then (SConnected, [])
                         else if pid p =? 0 then proto_error o
                         else (SConnected, [(if pqos p =? 1 then 4 else 5, pid p, 0)])
-           | PUBACK | PUBCOMP => (SConnected, [])                         (* nothing outstanding: ignored *)
-           | PUBREC => (SConnected, [(6, pid p, 0)])
+           | PUBACK | PUBCOMP | PUBREC => (SConnected, [])                (* nothing outstanding: ignored *)
            | PUBREL => (SConnected, [(7, pid p, if v5 o then 146 else 0)])
            | SUBSCRIBE => if pid p =? 0 then proto_error o
                           else if flag p && v5 o && negb (subs_id o) then (SClosed, [(14, 0, 161)])
+                          (* pqos of a SUBSCRIBE: 1 = its LAST filter is a shared subscription with No Local set,
+                             a protocol error [MQTT-3.8.3-4] whatever precedes it in the packet *)
+                          else if v5 o && (pqos p =? 1) then proto_error o
                           else (SConnected, [(9, pid p, N.of_nat (nfilt p))])
            | UNSUBSCRIBE => if pid p =? 0 then proto_error o
                             else (SConnected, [(11, pid p, if v5 o then N.of_nat (nfilt p) else 0)])
